@@ -11,6 +11,8 @@ import (
 	"time"
 
 	"github.com/moov-io/ach"
+	"github.com/moov-io/ach/server"
+	"github.com/moov-io/base/log"
 	"verif/harness/gen"
 	. "verif/harness/oracle"
 )
@@ -386,7 +388,12 @@ type segResult struct {
 	panic string
 }
 
+// segmentVia: 0 the library's File.SegmentFile; 1 the server's Service.SegmentFile (the code behind the HTTP segment
+// endpoints: it tabulates the file, then segments it); 2 Service.SegmentFileID on the stored file.
+var segmentVia int
+
 func segment(f *ach.File) (segResult, bool) {
+	via := segmentVia
 	ch := make(chan segResult, 1)
 	go func() {
 		var res segResult
@@ -396,7 +403,25 @@ func segment(f *ach.File) (segResult, bool) {
 			}
 			ch <- res
 		}()
-		res.c, res.d, res.err = f.SegmentFile(nil)
+		switch via {
+		case 1, 2:
+			repo := server.NewRepositoryInMemory(0, log.NewNopLogger())
+			svc := server.NewService(repo)
+			if via == 2 {
+				if f.ID == "" {
+					f.ID = "c11-stored"
+				}
+				if err := repo.StoreFile(f); err != nil {
+					res.err = fmt.Errorf("storing the file: %w", err)
+					return
+				}
+				res.c, res.d, res.err = svc.SegmentFileID(f.ID, nil)
+			} else {
+				res.c, res.d, res.err = svc.SegmentFile(f, nil)
+			}
+		default:
+			res.c, res.d, res.err = f.SegmentFile(nil)
+		}
 	}()
 	select {
 	case res := <-ch:
@@ -464,7 +489,15 @@ func run(t *T) {
 			t.Fail("C11/generator", "input file is not valid", FileInput(f), err.Error(), "a valid file")
 			continue
 		}
+		segmentVia = 0
+		switch i % 12 {
+		case 5, 9:
+			segmentVia = 1
+		case 11:
+			segmentVia = 2
+		}
 		checkFile(t, f, mode)
+		segmentVia = 0
 	}
 }
 
@@ -549,6 +582,10 @@ func caseKey(f *ach.File) (key, class string) {
 func checkFile(t *T, f *ach.File, mode int) {
 	key, class := caseKey(f)
 	class += fmt.Sprintf("/numbering=%d", mode)
+	if segmentVia != 0 {
+		class += fmt.Sprintf("/via-service=%d", segmentVia)
+		key += fmt.Sprintf(" via=%d", segmentVia)
+	}
 	in := snapshot(f)
 	input := FileInput(f)
 
